@@ -23,50 +23,7 @@ func init() {
 func runC18(c *eng.Ctx) {
 	P := c.P
 	_ = P
-	// (0) SIB-store-choice: with path-specific stores the children of directory D live in the store selected for "D/" (every
-	// child path "D/x" has that prefix), while D's own entry lives in the store selected for "D". Every wrapper method
-	// that operates on the children of a directory selects by "D/"; every method that operates on one entry selects by
-	// the entry's path.
-	{
-		childOps := eng.CallTo("filer.FilerStore).DeleteFolderChildren", "filer.FilerStore).ListDirectoryEntries", "filer.FilerStore).ListDirectoryPrefixedEntries")
-		entryOps := eng.CallTo("filer.FilerStore).InsertEntry", "filer.FilerStore).UpdateEntry", "filer.FilerStore).FindEntry", "filer.FilerStore).DeleteEntry")
-		nCh, nEn := 0, 0
-		for _, fn := range P.SrcFuncs("weed/filer") {
-			if fn.Signature.Recv() == nil || eng.TypeName(fn.Signature.Recv().Type()) != "FilerStoreWrapper" {
-				continue
-			}
-			sel := eng.Find(fn, eng.PlainCallTo("filer.FilerStoreWrapper).getActualStore"))
-			if len(sel) == 0 {
-				continue
-			}
-			isCh, isEn := len(eng.Find(fn, childOps)) > 0, len(eng.Find(fn, entryOps)) > 0
-			if !isCh && !isEn {
-				continue
-			}
-			c.Touch(fn)
-			for i, in := range sel {
-				arg := eng.Unwrap(eng.Arg(in.(ssa.CallInstruction), 0))
-				slash := false
-				if b, ok := arg.(*ssa.BinOp); ok && b.Op == token.ADD {
-					if k, isK := eng.ConstString(eng.Unwrap(b.Y)); isK && k == "/" {
-						slash = true
-					}
-				}
-				if isCh {
-					nCh++
-					c.Ob("SIB-store-choice", fmt.Sprintf("%s children-op selects by dir+\"/\"#%d", eng.FuncName(fn), i), slash, in.Pos(),
-						"an operation on the children of a directory goes to the store chosen for the directory path followed by \"/\" (where the children were written)")
-				} else {
-					nEn++
-					c.Ob("SIB-store-choice", fmt.Sprintf("%s entry-op selects by the entry path#%d", eng.FuncName(fn), i), !slash, in.Pos(),
-						"an operation on one entry goes to the store chosen for the entry's own path")
-				}
-			}
-		}
-		if nCh < 4 || nEn < 5 {
-			c.Undecided("SIB-store-choice", "discovery", token.NoPos, fmt.Sprintf("found %d children operations and %d entry operations (expected >= 4 and >= 5)", nCh, nEn))
-		}
-	}
+	storeChoice(c, "SIB-store-choice")
 
 	// (1) CreateEntry
 	if fn := c.NeedFunc("weed/filer", "(*Filer).CreateEntry"); fn != nil {
@@ -267,4 +224,49 @@ func runC18(c *eng.Ctx) {
 	errAll(c, "ERR-namespace", "weed/filer", "an error of a callee on the entry update / delete path reaches the caller", "(*Filer).UpdateEntry", "(*Filer).doDeleteEntryMetaAndData")
 	errAll(c, "ERR-namespace", "weed/server", "an error of a callee while moving entries reaches the caller (and rolls the transaction back)", "(*FilerServer).moveEntry", "(*FilerServer).moveFolderSubEntries", "(*FilerServer).moveSelfEntry")
 	c.Expect("ERR-namespace", 9)
+}
+
+// storeChoice: with path-specific stores the children of directory D live in the store selected for "D/", D's own entry
+// in the store selected for "D": wrapper methods operating on children select by dir+"/", those operating on one entry
+// by the entry's path.
+func storeChoice(c *eng.Ctx, rule string) {
+	P := c.P
+	childOps := eng.CallTo("filer.FilerStore).DeleteFolderChildren", "filer.FilerStore).ListDirectoryEntries", "filer.FilerStore).ListDirectoryPrefixedEntries")
+	entryOps := eng.CallTo("filer.FilerStore).InsertEntry", "filer.FilerStore).UpdateEntry", "filer.FilerStore).FindEntry", "filer.FilerStore).DeleteEntry")
+	nCh, nEn := 0, 0
+	for _, fn := range P.SrcFuncs("weed/filer") {
+		if fn.Signature.Recv() == nil || eng.TypeName(fn.Signature.Recv().Type()) != "FilerStoreWrapper" {
+			continue
+		}
+		sel := eng.Find(fn, eng.PlainCallTo("filer.FilerStoreWrapper).getActualStore"))
+		if len(sel) == 0 {
+			continue
+		}
+		isCh, isEn := len(eng.Find(fn, childOps)) > 0, len(eng.Find(fn, entryOps)) > 0
+		if !isCh && !isEn {
+			continue
+		}
+		c.Touch(fn)
+		for i, in := range sel {
+			arg := eng.Unwrap(eng.Arg(in.(ssa.CallInstruction), 0))
+			slash := false
+			if b, ok := arg.(*ssa.BinOp); ok && b.Op == token.ADD {
+				if k, isK := eng.ConstString(eng.Unwrap(b.Y)); isK && k == "/" {
+					slash = true
+				}
+			}
+			if isCh {
+				nCh++
+				c.Ob(rule, fmt.Sprintf("%s children-op selects by dir+\"/\"#%d", eng.FuncName(fn), i), slash, in.Pos(),
+					"an operation on the children of a directory goes to the store chosen for the directory path followed by \"/\" (where the children were written)")
+			} else {
+				nEn++
+				c.Ob(rule, fmt.Sprintf("%s entry-op selects by the entry path#%d", eng.FuncName(fn), i), !slash, in.Pos(),
+					"an operation on one entry goes to the store chosen for the entry's own path")
+			}
+		}
+	}
+	if nCh < 4 || nEn < 5 {
+		c.Undecided(rule, "discovery", token.NoPos, fmt.Sprintf("found %d children operations and %d entry operations (expected >= 4 and >= 5)", nCh, nEn))
+	}
 }
